@@ -372,21 +372,22 @@ class Zeroconf(QuietLogger):
         """Registers service information to the network with a default TTL.
         Zeroconf will then respond to requests for information for that
         service."""
-        # Answers that were queued while the previous description was current
-        # must not be sent after the announcement of the new one
-        previous = self.registry.async_get_info_name(info.name)
-        superseded: Set[DNSRecord] = set()
-        if previous is not None:
-            superseded.update((previous.dns_service(), previous.dns_text()))
-            server_key = previous.server_key
-            if server_key is not None and len(self.registry.async_get_infos_server(server_key)) <= 1:
-                superseded.update(previous.get_address_and_nsec_records())
+        previous = self.registry.async_get_info_name(info.key)
         self.registry.async_update(info)
-        superseded.difference_update((info.dns_service(), info.dns_text()))
-        superseded.difference_update(info.get_address_and_nsec_records())
-        if superseded:
-            self.out_queue.async_remove_records(superseded)
-            self.out_delay_queue.async_remove_records(superseded)
+        # Answers that were queued while the previous description was current
+        # must not be sent after the announcement of the new one: drop what the
+        # service's own names own in the queues unless it is still current
+        names: Set[str] = {info.key}
+        for described in (previous, info):
+            if described is None or described.server_key is None:
+                continue
+            # address records are left alone when another service uses the host name
+            if len(self.registry.async_get_infos_server(described.server_key)) <= 1:
+                names.add(described.server_key)
+        current: Set[DNSRecord] = {info.dns_service(), info.dns_text()}
+        current.update(info.get_address_and_nsec_records())
+        self.out_queue.async_remove_superseded(names, current)
+        self.out_delay_queue.async_remove_superseded(names, current)
         return asyncio.ensure_future(self._async_broadcast_service(info, _REGISTER_TIME, None))
 
     async def async_get_service_info(
